@@ -24,7 +24,7 @@ func vhDirtyState(st *PersistentSlabStorage, base *vBase, k int, withTemp bool, 
 			d.id = vhSlabID(0, 3)
 		}
 		temp := d.id.address == AddressUndefined
-		if !temp && vhChoose("had", 2) == 1 {
+		if !temp && (k > 2 || vhChoose("had", 2) == 1) {
 			d.oldVer = vhRange("oldver", 1, 100)
 			base.regs[d.id] = vhRegister(d.id, d.oldVer)
 		}
@@ -100,9 +100,10 @@ func vhCheckPartial(st *PersistentSlabStorage, base *vBase, ds []*vhDirty, what 
 }
 
 //vh:prop C14
-//vh:param k 2 3
+//vh:stubs codec
+//vh:param k 3 3
 //vh:param workers 1 2
-//vh:param retries 1 2
+//vh:param retries 1 1
 func VH_C14_CommitFaults() {
 	k := vhParam("k", 2)
 	base := newVBase()
@@ -111,25 +112,21 @@ func VH_C14_CommitFaults() {
 	relaxed := vhChoose("relaxed", 2) == 1
 	w := 1 + vhChoose("workers", vhParam("workers", 1))
 	retries := vhParam("retries", 1)
-	nowned := 0
-	for _, d := range ds {
-		if d.id.address != AddressUndefined {
-			nowned++
-		}
-	}
 	for attempt := 0; attempt <= retries; attempt++ {
-		// fault schedule for this attempt: one symbolic bit per ledger call; the last attempt is fault-free
-		base.faults = nil
-		base.ncalls = 0
+		// fault schedule for this attempt: one symbolic bit per ledger write/delete
+		// (keyed by identifier, so that it does not depend on call order); the
+		// last attempt is fault-free
+		base.faults = map[SlabID]bool{}
+		base.ncalls, base.nfailed = 0, 0
 		if attempt < retries {
-			for i := 0; i < nowned; i++ {
-				base.faults = append(base.faults, vhBool("fault"))
+			for _, d := range ds {
+				if d.id.address != AddressUndefined {
+					base.faults[d.id] = vhBool("fault")
+				}
 			}
 		}
-		before := len(base.log)
 		err := vhCommit(st, relaxed, w)
-		issued := base.ncalls
-		failed := issued - (len(base.log) - before)
+		failed := base.nfailed
 		if failed > 0 {
 			vhAssert(err != nil, "a failed ledger call makes the commit report an error")
 			vhAssert(vhIsExternal(err), "ledger failure is reported as an external error")
@@ -152,6 +149,7 @@ func VH_C14_CommitFaults() {
 // order is explored exhaustively.
 //
 //vh:prop C04
+//vh:stubs codec
 //vh:maporder any
 //vh:param k 3 3
 //vh:param workers 1 2
@@ -200,6 +198,7 @@ func VH_C04_CommitOrder() {
 // with and without encode errors.
 //
 //vh:prop C16
+//vh:stubs codec
 //vh:param k 2 3
 //vh:param workers 2 2
 func VH_C16_ParallelCommit() {
